@@ -239,11 +239,45 @@ def histories(rng: random.Random, quick: bool, with_compile: bool) -> List[List[
     return H
 
 
+def tlc_histories(rep: Report, rng: random.Random, quick: bool) -> Tuple[List[List[Tuple[Any, ...]]], List[List[Tuple[Any, ...]]]]:
+    """Direction A: histories generated by TLC from spec/Transforms_Gen.tla -- every maximal history with <= 3 modules and
+    3 calls over {us, q2, track} (exhaustive mode), and random histories with <= 5 modules / 5 calls over all format kinds
+    (-simulate).  quick replays a sample of the first set, thorough all of it plus the simulated ones."""
+    def conv(h):
+        return [("apply", e[1], e[2]) if e[0] == "apply" else ("call", e[1]) for e in h]
+
+    res = common.run_tlc("Transforms_Gen", "Transforms_Gen.cfg", workers=1, timeout=600, tag="trgen")
+    common.tlc_must_pass(res, "Transforms_Gen")
+    rep.add_tlc(res, with_cov=False)
+    seen, small = set(), []
+    for h in res.printed("HIST"):
+        k = json.dumps(h)
+        if k not in seen:
+            seen.add(k)
+            small.append(conv(h))
+    if not small:
+        raise common.MachineryError("Transforms_Gen emitted no history")
+    rep.extra["tlc_generated_histories_exhaustive_3x3"] = len(small)
+    if quick:
+        return rng.sample(small, 30), []
+    sim = common.run_tlc("Transforms_Gen", "Transforms_Gen_sim.cfg", workers=1, timeout=900, tag="trgensim", simulate="num=400", depth=12, extra=["-seed", str(common.seed() + 1)])
+    if sim.violated_invariant:
+        raise common.MachineryError(f"Transforms_Gen simulation refuted {sim.violated_invariant}")
+    big = []
+    for h in sim.printed("HIST"):
+        k = json.dumps(h)
+        if k not in seen:
+            seen.add(k)
+            big.append(conv(h))
+    rep.extra["tlc_generated_histories_simulated_5x5"] = len(big)
+    return small, rng.sample(big, min(len(big), 400))
+
+
 def run(rep: Report, tier: str) -> None:
     rng = random.Random(common.seed() * 67 + 20)
     torch.set_num_threads(2)
     quick = tier == "quick"
-    res = common.run_tlc("Transforms_MC", "Transforms_MC.cfg", coverage=True, timeout=900, tag="trmc")
+    res = common.run_tlc("Transforms_MC", "Transforms_MC.cfg" if quick else "Transforms_MC_5.cfg", coverage=True, timeout=1800, tag="trmc")
     common.tlc_must_pass(res, "Transforms_MC")
     rep.add_tlc(res)
     for leg, inv in (("stale_cache", "EffectiveIsOwn"), ("no_reorder", None)):   # no_reorder already falsifies the inductive ASSUME
@@ -253,11 +287,17 @@ def run(rep: Report, tier: str) -> None:
     traces: List[List[Dict[str, Any]]] = []
     meta: List[Dict[str, Any]] = []
     fam = [MLP, UBlock] if quick else FAMILY
+    jobs: List[Tuple[Any, int, List[Tuple[Any, ...]]]] = []
     for ci, cls in enumerate(fam):
         hs = histories(rng, quick, with_compile=not quick and ci == 0)
         if quick:
             hs = hs if ci == 0 else hs[1::2]
-        for hi, h in enumerate(hs):
+        jobs += [(cls, ci, h) for h in hs]
+    small, big = tlc_histories(rep, rng, quick)
+    jobs += [(fam[0], 0, h) for h in small]
+    jobs += [(fam[i % len(fam)], i % len(fam), h) for i, h in enumerate(big)]
+    if True:
+        for hi, (cls, ci, h) in enumerate(jobs):
             w = World(cls, seed=100 + ci)
             steps = []
             for st in h:
@@ -278,7 +318,7 @@ def run(rep: Report, tier: str) -> None:
             raise common.MachineryError(f"Transforms_Trace: {clause}")
         rep.violation(f"{meta[l - 1]['module']}: history {meta[l - 1]['history']}: {clause} at step {k}: {traces[l - 1][k - 1] if k else ''}",
                       {"meta": meta[l - 1], "trace": traces[l - 1], "step": k, "clause": clause}, key=f"{clause}")
-    rep.rule = "histories of transforms and calls (both orders of unit_scale / format simulation in one history, calls between transforms, repeated calls, branching from earlier modules, track as last transform; thorough: 3 format kinds, compile, random histories) on a family of small modules; non-trivial = at least two transforms"
+    rep.rule = "histories of transforms and calls (both orders of unit_scale / format simulation in one history, calls between transforms, repeated calls, branching from earlier modules, track as last transform; thorough: 3 format kinds, compile, random histories) on a family of small modules; plus histories GENERATED BY TLC from Transforms_Gen (quick: 30 of the 1170 maximal histories with 3 modules x 3 calls; thorough: all of them and up to 400 simulated 5x5 histories); non-trivial = at least two transforms"
     if traces:
         rep.sample({"meta": meta[0], "trace": traces[0][:4]})
     rep.assumptions += ["'ran' is read off the library's own log records; fingerprints are sha1 of output + input gradient + parameter gradients with seeds pinned",
